@@ -137,6 +137,10 @@ def build_slice(path, entries, tier, log):
             P.run([sys.executable, os.path.join(os.path.dirname(path), mg.group(1)), P.REPO, os.path.join(gd, mg.group(2))])
             gen_flags = ["-I" + gd]
     hb = P.compile_harness(path, wd, extra_flags=["-DVF_TIER=%d" % (2 if tier == "thorough" else 1)] + gen_flags)
+    # data symbols the harness itself defines (its own statics are not library state)
+    nm = P.run(["llvm-nm-14", hb])
+    open(os.path.join(wd, "harness_syms.txt"), "w").write("\n".join(
+        ln.split()[-1] for ln in nm.splitlines() if len(ln.split()) >= 2 and ln.split()[-2] in "BbDdCc") + "\n")
     linked = os.path.join(wd, "linked.bc")
     P.run([P.LLVM_LINK, lib, "--override", hb, "-o", linked])
     api = ",".join(entries)
@@ -184,6 +188,58 @@ def build_native(ll, wd, entry, asan=False):
     if asan:
         cmd.insert(1, "-fsanitize=address,undefined")
     P.run(cmd)
+    os.rename(exe + ".tmp", exe)
+    return exe
+
+
+def build_watch_native(ll, wd, entry, mod, gsyms):
+    """native build in which the named globals sit alone on write-protected pages while the harness has the
+    shared-state watch on: a store to one of them is reported as CHECK lock.discipline.<name> 0 (rt/vf_native.c)"""
+    tag = _h(",".join(sorted(gsyms)))[:8]
+    exe = os.path.join(wd, "%s.watch-%s.exe" % (entry, tag))
+    if os.path.exists(exe):
+        return exe
+    txt = open(ll).read()
+    names, addrs, sizes, strs = [], [], [], []
+    from . import irparse
+    for i, gs in enumerate(sorted(gsyms)):
+        g = mod.globals.get(gs)
+        if g is None:
+            continue
+        q = gs if re.match(r"^[A-Za-z0-9_.$]+$", gs) else '"%s"' % gs
+        m = re.search(r"^@%s = [^\n]*$" % re.escape(q), txt, re.M)
+        if not m:
+            continue
+        line = m.group(0)
+        line2 = re.sub(r",?\s*align \d+", "", line)
+        line2 = re.sub(r",\s*(!dbg|comdat)[^\n]*$", "", line2)
+        line2 = line2.replace(" internal unnamed_addr ", " internal ").replace(" local_unnamed_addr ", " ").replace(" unnamed_addr ", " ")
+        line2 += ', section "vfwatch", align 4096'
+        txt = txt.replace(line, line2)
+        from . import irsym as _irsym
+        nm = _irsym.P_dem(gs)
+        b = nm.encode() + b"\0"
+        strs.append('@vf_watch_name_%d = private constant [%d x i8] c"%s"' % (
+            i, len(b), "".join("\\%02X" % c for c in b)))
+        names.append("i8* getelementptr inbounds ([%d x i8], [%d x i8]* @vf_watch_name_%d, i64 0, i64 0)" % (len(b), len(b), i))
+        addrs.append("i8* bitcast (%s* @%s to i8*)" % (g.ty.s(), q))
+        sizes.append("i64 %d" % irparse.sizeof(g.ty))
+    n = len(names)
+    if n == 0:
+        return None
+    txt += "\n" + "\n".join(strs) + "\n"
+    txt += '@vf_watch_tail = global [4096 x i8] zeroinitializer, section "vfwatch", align 4096\n'
+    txt += "@vf_watch_n = global i64 %d\n" % n
+    txt += "@vf_watch_addr = global [%d x i8*] [%s]\n" % (n, ", ".join(addrs))
+    txt += "@vf_watch_size = global [%d x i64] [%s]\n" % (n, ", ".join(sizes))
+    txt += "@vf_watch_names = global [%d x i8*] [%s]\n" % (n, ", ".join(names))
+    ll2 = os.path.join(wd, "%s.watch-%s.ll" % (entry, tag))
+    open(ll2, "w").write(txt)
+    obj = os.path.join(wd, entry + ".vfn.watch.o")
+    P.run(["clang-14", "-O1", "-I" + os.path.join(ROOT, "rt"), "-DVF_ENTRY=" + entry, "-DVF_WATCH_TABLE", "-c",
+           os.path.join(ROOT, "rt", "vf_native.c"), "-o", obj])
+    P.run(["clang++-14", "-O1", "-Wno-override-module", ll2, obj, os.path.join(ROOT, "rt", "vf_native_cxx.cpp"),
+           "-o", exe + ".tmp", "-lm", "-lpthread"])
     os.rename(exe + ".tmp", exe)
     return exe
 
@@ -316,6 +372,9 @@ def _run_one(o, mod, dem, ll, wd, tier, seed, R, log, irsym):
     E.budget_s = float(opts.get("budget_s", 150)) * (8 if thorough else 1)
     E.presplit = opts.get("presplit", "1") == "1"
     E.layout_dir = wd
+    hs = os.path.join(wd, "harness_syms.txt")
+    if os.path.exists(hs):
+        E.harness_globals = set(re.sub(r"\.\d+$", "", x) for x in open(hs).read().split())
     if os.environ.get("VF_TRACE"):
         E.slowlog = lambda m: print("[%s] %s" % (o.id, m), file=sys.stderr)
     partial = False
@@ -426,7 +485,14 @@ def _run_one(o, mod, dem, ll, wd, tier, seed, R, log, irsym):
         nat = run_native(exe, vec, wd, "cex")
         failing = [l for l in nat["lines"] if l[1] == c["label"] and l[2] == 0]
         how = "native replay of the slice"
-        if c.get("kind") == "lock" and opts.get("confirm", "").startswith("stress:"):
+        if c.get("kind") == "lock" and c.get("gsym"):
+            # deterministic confirmation: the variable sits on a write-protected page while the watch is on
+            wexe = build_watch_native(ll, wd, o.entry, mod, [x["gsym"] for x in res.cex if x.get("gsym")])
+            if wexe:
+                nat = run_native(wexe, vec, wd, "cexw")
+                failing = [l for l in nat["lines"] if l[1] == c["label"] and l[2] == 0]
+                how = "native run of the slice with the variable on a write-protected page: the store faults inside the watched call"
+        if c.get("kind") == "lock" and not failing and opts.get("confirm", "").startswith("stress:"):
             failing, how = stress_confirm(os.path.join(ROOT, opts["confirm"][7:]), wd), "multi-threaded stress run against the library IR"
         c2 = {"label": c["label"], "detail": c.get("detail", ""), "inputs": {n: v for n, v in vec},
               "replayed": bool(failing), "confirmed_how": how, "native": [list(x) for x in nat["lines"][:6]],
@@ -465,7 +531,8 @@ def stress_confirm(src, wd):
         return []
     hit = []
     for k in range(4):
-        r = subprocess.run(["timeout", "60", exe], stdout=subprocess.PIPE, stderr=subprocess.PIPE, text=True, cwd=wd)
+        r = subprocess.run(["timeout", "60", exe], stdout=subprocess.PIPE, stderr=subprocess.PIPE, text=True, cwd=wd,
+                           env=dict(os.environ, VF_REPO=P.REPO))
         if r.returncode == 1:
             hit = [("stress", r.stderr.strip()[-200:])]
             break
